@@ -277,6 +277,10 @@ def tev(t, env):
                 raise Fail("division by zero")
             return a[0] // a[1]
         return a[0]
+    if op in ("u32gt", "u32xor"):
+        if any(x >= U32 for x in a):
+            raise Fail("non-u32 operand of %s" % op)
+        return int(a[0] > a[1]) if op == "u32gt" else a[0] ^ a[1]
     if op == "hi32":
         return a[0] >> 32
     if op == "lo32":
@@ -510,6 +514,11 @@ class PipeFlow(TermFlow):
         elif op == "neq" and not imm:
             b, a = st.pop(0), st.pop(0)
             st.insert(0, T("neq", a, b))
+        elif op == "u32assert2":
+            ev.append(("u32assert2", ln, st[0], st[1]))
+        elif op in ("u32gt", "u32xor"):
+            b, a = st.pop(0), st.pop(0)
+            st.insert(0, T(op, a, b))
         else:
             return TermFlow.step(self, ins, ln, st, ev, gd, depth)
         return [(st, ev, gd)]
